@@ -1,0 +1,19 @@
+//go:build verif
+
+package ige
+
+import "math/big"
+
+// Exports for the external verification harness (/verif); compiled only with -tags verif.
+
+func VerifIGEEncrypt(in, out, key, iv []byte) error { return doAES256IGEencrypt(in, out, key, iv) }
+
+func VerifIGEDecrypt(in, out, key, iv []byte) error { return doAES256IGEdecrypt(in, out, key, iv) }
+
+func VerifTempKeys(nonceSecond, nonceServer *big.Int) (key, iv []byte) {
+	return generateTempKeys(nonceSecond, nonceServer)
+}
+
+func VerifMsgKeys(msgKey, authKey []byte, decode bool) (key, iv []byte) {
+	return generateAESIGE(msgKey, authKey, decode)
+}
